@@ -80,7 +80,20 @@ def one_rule(ctx, rng, ast, text, paths, forced=False):
         kw = ep[1]
         rkw, vals = wild_values(cast, s)
         if rkw is None or rkw != kw:
-            ctx.count('reference_disagrees_skipped(C01 business)')
+            # the router matched what the reference matcher does not (that alone is C01's business); the round trip is
+            # still judged, purely metamorphically, when all wildcards are named (no reference trace needed)
+            ctx.count('reference_disagrees(C01 business)')
+            if any(it[0] == 'wild' and it[1] is None for it in cast):
+                continue
+            wit = {'unit': {'kind': 'one', 'ast': ast, 'text': text, 'path': p}}
+            try:
+                url = route.url(**kw)
+                ep2, err2 = router.resolve('/' + url, ['GET'])
+            except Exception as e:  # noqa
+                ctx.violation(f'url()-raises-{type(e).__name__}', f'rule {text!r} path {p!r} kw={kw!r}: {e!r}', wit)
+                continue
+            if err2 or ep2[0].route is not route or ep2[1] != kw:
+                ctx.violation('built-url-does-not-lead-back-to-the-match(router-only)', f'rule {text!r} path {p!r} kw={kw!r}: url {url!r} -> {err2 or ep2[1]}', wit)
             continue
         if any(it[2] == 'float' and len(str(v)) > 40 for (_, v), it in zip(vals, [i for i in cast if i[0] == 'wild'])):
             continue
